@@ -95,4 +95,206 @@ theorem gen_FRelEntropy (hk : ∀ kl x y : α, klAdd kl x y = kl + x * log2 (x /
   cases relEntropyGo p.toList q.toList (ofNat 0 : α) <;> rfl
 
 end rel
+/-- one array: a loop whose body, on every in-range index, neither faults nor depends on anything but the cell and the state -/
+theorem loop_fold1 {α σ : Type} (a : Array α) (s : σ) (body : Int → σ → Option σ) (G : σ → α → σ)
+    (hb : ∀ (j : Nat) (s : σ) (h : j < a.size), body (0 + (j : Int)) s = some (G s a[j])) :
+    loop 0 (a.size : Int) s body = some (a.toList.foldl G s) := by
+  obtain ⟨r, hr, hP⟩ := loop_inv 0 (a.size : Int) body
+    (fun j s' => s' = (a.toList.take j).foldl G s) s (by simp) (by
+      intro j s' hj hs'
+      have hj' : j < a.size := by omega
+      refine ⟨_, hb j s' hj', ?_⟩
+      have hlen : j < a.toList.length := by simpa using hj'
+      rw [List.take_succ_eq_append_getElem hlen, List.foldl_append, ← hs']
+      simp)
+  rw [hr, hP]
+  have : ((a.size : Int) - 0).toNat = a.size := by omega
+  rw [this, List.take_of_length_le (by simp)]
+
+section validate
+variable {α : Type} [VNum α]
+
+/-- one iteration of the `Validate` loop on the state (status already returned) ⊕ (`sum` so far) -/
+def valStep (acc : Int ⊕ α) (x : α) : Int ⊕ α :=
+  match acc with
+  | Sum.inl r => Sum.inl r
+  | Sum.inr s => if notProb x then Sum.inl 1 else Sum.inr (s + x)
+/-- what the routine returns after the loop -/
+def valOut (tol : α) : Int ⊕ α → Int
+  | Sum.inl r => r
+  | Sum.inr s => if offOne s tol then 1 else 0
+
+theorem valStep_inr (s x : α) : valStep (Sum.inr s) x = if notProb x then Sum.inl 1 else Sum.inr (s + x) := rfl
+theorem valStep_inl (r : Int) (x : α) : valStep (Sum.inl r) x = Sum.inl r := rfl
+theorem valFold_inl (l : List α) (r : Int) : l.foldl valStep (Sum.inl r) = Sum.inl r := by
+  induction l with
+  | nil => rfl
+  | cons x xs ih => rw [List.foldl_cons, valStep_inl]; exact ih
+theorem valFold_eq (tol : α) (v : List α) (s : α) :
+    valOut tol (v.foldl valStep (Sum.inr s)) = if validateGo tol v s then 0 else 1 := by
+  induction v generalizing s with
+  | nil => simp only [List.foldl_nil, valOut, validateGo]; by_cases h : offOne s tol = true <;> simp [h]
+  | cons x xs ih =>
+    rw [List.foldl_cons, valStep_inr]
+    unfold validateGo
+    cases hx : notProb x
+    · simpa using ih (s + x)
+    · simp [valFold_inl, valOut]
+
+variable [VFin α]
+/-- `esl_vec_DValidate` as regenerated (`errbuf` aside): `eslOK` (0) for `n = 0`; `eslFAIL` (1) at the first cell with
+    `!isfinite(x) || x < 0.0 || x > 1.0`; else `eslFAIL` iff `fabs(sum - 1.0) > tol` — the hand model's `validate`; never a fault -/
+theorem gen_DValidate (hn : ∀ x : α, notProb x = (!(VFin.isFinite x) || lt x (ofNat 0) || lt (ofNat 1) x))
+    (ho : ∀ s tol : α, offOne s tol = lt tol (VFin.abs (s - ofNat 1))) (v : Array α) (tol : α) :
+    esl_vec_DValidate v v.size tol = some (if validate v.toList tol then 0 else 1) := by
+  unfold esl_vec_DValidate loopRet validate
+  simp only [bind, pure, celem_ofNat, celem_sub]
+  by_cases hz : v.size = 0
+  · have e : v = #[] := Array.eq_empty_of_size_eq_zero hz
+    subst e; rfl
+  · have h1 : ¬ ((v.size : Int) = 0) := by omega
+    have h2 : v.toList.isEmpty = false := by
+      rw [List.isEmpty_eq_false_iff]; intro e; apply hz; simpa using congrArg List.length e
+    simp only [h1, decide_false, Bool.false_eq_true, if_false, h2]
+    rw [loop_fold1 v _ _ valStep (by
+      intro j acc hj
+      cases acc with
+      | inl r => rfl
+      | inr s =>
+        simp only [zero_add_cast, bind, pure, rd_lt v j hj, Option.bind_some, valStep_inr, hn, celem_ofNat, celem_add]
+        cases VFin.isFinite v[j] <;> cases lt v[j] (ofNat 0 : α) <;> cases lt (ofNat 1 : α) v[j] <;> simp)]
+    simp only [Option.bind_some]
+    rw [← valFold_eq tol v.toList (ofNat 0)]
+    cases v.toList.foldl valStep (Sum.inr (ofNat 0 : α)) with
+    | inl r => rfl
+    | inr s => simp only [valOut, ho, Option.bind_some]; cases h : lt tol (VFin.abs (s - ofNat 1 : α)) <;> simp
+
+attribute [local instance] VMix.same
+/-- the `float` routine (range tests and `fabs(sum - 1.0) > tol` promoted to double): over exact arithmetic the same function -/
+theorem gen_FValidate (hn : ∀ x : α, notProb x = (!(VFin.isFinite x) || lt x (ofNat 0) || lt (ofNat 1) x))
+    (ho : ∀ s tol : α, offOne s tol = lt tol (VFin.abs (s - ofNat 1))) (v : Array α) (tol : α) :
+    esl_vec_FValidate v v.size tol = some (if validate v.toList tol then 0 else 1) := by
+  unfold esl_vec_FValidate loopRet validate
+  simp only [bind, pure, celem_ofNat, celem_sub, widen_same]
+  by_cases hz : v.size = 0
+  · have e : v = #[] := Array.eq_empty_of_size_eq_zero hz
+    subst e; rfl
+  · have h1 : ¬ ((v.size : Int) = 0) := by omega
+    have h2 : v.toList.isEmpty = false := by
+      rw [List.isEmpty_eq_false_iff]; intro e; apply hz; simpa using congrArg List.length e
+    simp only [h1, decide_false, Bool.false_eq_true, if_false, h2]
+    rw [loop_fold1 v _ _ valStep (by
+      intro j acc hj
+      cases acc with
+      | inl r => rfl
+      | inr s =>
+        simp only [zero_add_cast, bind, pure, rd_lt v j hj, Option.bind_some, valStep_inr, hn, celem_ofNat, celem_add, widen_same]
+        cases VFin.isFinite v[j] <;> cases lt v[j] (ofNat 0 : α) <;> cases lt (ofNat 1 : α) v[j] <;> simp)]
+    simp only [Option.bind_some]
+    rw [← valFold_eq tol v.toList (ofNat 0)]
+    cases v.toList.foldl valStep (Sum.inr (ofNat 0 : α)) with
+    | inl r => rfl
+    | inr s => simp only [valOut, ho, Option.bind_some]; cases h : lt tol (VFin.abs (s - ofNat 1 : α)) <;> simp
+
+end validate
+/-! ## `esl_vec_{D,F}Log{,2}Validate`: ESL_ALLOC a scratch copy, Copy, Exp / Exp2, Validate -/
+section logvalidate
+variable {α : Type} [VInf α] [VFin α]
+
+theorem logValidate_core (hn : ∀ x : α, notProb x = (!(VFin.isFinite x) || lt x (ofNat 0) || lt (ofNat 1) x))
+    (ho : ∀ s tol : α, offOne s tol = lt tol (VFin.abs (s - ofNat 1))) (v : Array α) (tol : α) (hz : v.size ≠ 0)
+    (E : Array α → Int → Option (Array α)) (f : α → α) (hE : ∀ w : Array α, ∃ r, E w w.size = some r ∧ r.toList = w.toList.map f)
+    (V : Array α → Int → α → Option Int) (hV : ∀ w : Array α, V w w.size tol = some (if validate w.toList tol then 0 else 1)) :
+    ((allocM (v.size : Int) (CElem.ofNat 0 : α)).bind fun e => (esl_vec_DCopy v v.size e).bind fun e => (E e v.size).bind fun e =>
+      (V e v.size tol).bind fun st => if decide (st ≠ 0) then some st else some 0) =
+      some (if validate (v.toList.map f) tol then 0 else 1) := by
+  have hpos : (0 : Int) < v.size := by omega
+  simp only [allocM, if_pos hpos, Option.bind_some]
+  rw [copy_DI]
+  obtain ⟨r1, h1, l1⟩ := gen_copy v (Array.replicate (v.size : Int).toNat (CElem.ofNat 0 : α)) (by simp)
+  have e1 : r1 = v := Array.toList_inj.mp l1
+  rw [h1, e1]; simp only [Option.bind_some]
+  obtain ⟨r2, h2, l2⟩ := hE v
+  have s2 : r2.size = v.size := by have := congrArg List.length l2; simpa using this
+  rw [h2]; simp only [Option.bind_some]
+  rw [← s2, hV r2, l2]; simp only [Option.bind_some]
+  cases validate (v.toList.map f) tol <;> simp
+
+/-- `esl_vec_DLogValidate` / `esl_vec_DLog2Validate` as regenerated = the hand model's `logValidate` / `log2Validate` -/
+theorem gen_DLogValidate (hn : ∀ x : α, notProb x = (!(VFin.isFinite x) || lt x (ofNat 0) || lt (ofNat 1) x))
+    (ho : ∀ s tol : α, offOne s tol = lt tol (VFin.abs (s - ofNat 1))) (v : Array α) (tol : α) :
+    esl_vec_DLogValidate v v.size tol = some (if logValidate v.toList tol then 0 else 1) ∧
+    esl_vec_DLog2Validate v v.size tol = some (if log2Validate v.toList tol then 0 else 1) := by
+  by_cases hz : v.size = 0
+  · have e : v = #[] := Array.eq_empty_of_size_eq_zero hz
+    subst e; exact ⟨rfl, rfl⟩
+  · have h1 : ¬ ((v.size : Int) = 0) := by omega
+    have h2 : v.toList.isEmpty = false := by
+      rw [List.isEmpty_eq_false_iff]; intro e; apply hz; simpa using congrArg List.length e
+    constructor
+    · unfold esl_vec_DLogValidate logValidate
+      simp only [bind, pure, h1, decide_false, Bool.false_eq_true, if_false, h2]
+      exact logValidate_core hn ho v tol hz (fun w n => esl_vec_DExp w n) exp (fun w => gen_DExp w) (fun w n t => esl_vec_DValidate w n t)
+        (fun w => gen_DValidate hn ho w tol)
+    · unfold esl_vec_DLog2Validate log2Validate
+      simp only [bind, pure, h1, decide_false, Bool.false_eq_true, if_false, h2]
+      exact logValidate_core hn ho v tol hz (fun w n => esl_vec_DExp2 w n) exp2 (fun w => gen_DExp2 w) (fun w n t => esl_vec_DValidate w n t)
+        (fun w => gen_DValidate hn ho w tol)
+
+attribute [local instance] VMix.same
+theorem copy_FD' : @esl_vec_FCopy = @esl_vec_DCopy := rfl
+theorem gen_FLogValidate (hn : ∀ x : α, notProb x = (!(VFin.isFinite x) || lt x (ofNat 0) || lt (ofNat 1) x))
+    (ho : ∀ s tol : α, offOne s tol = lt tol (VFin.abs (s - ofNat 1))) (v : Array α) (tol : α) :
+    esl_vec_FLogValidate v v.size tol = some (if logValidate v.toList tol then 0 else 1) ∧
+    esl_vec_FLog2Validate v v.size tol = some (if log2Validate v.toList tol then 0 else 1) := by
+  by_cases hz : v.size = 0
+  · have e : v = #[] := Array.eq_empty_of_size_eq_zero hz
+    subst e; exact ⟨rfl, rfl⟩
+  · have h1 : ¬ ((v.size : Int) = 0) := by omega
+    have h2 : v.toList.isEmpty = false := by
+      rw [List.isEmpty_eq_false_iff]; intro e; apply hz; simpa using congrArg List.length e
+    constructor
+    · unfold esl_vec_FLogValidate logValidate
+      simp only [bind, pure, h1, decide_false, Bool.false_eq_true, if_false, h2, copy_FD']
+      exact logValidate_core hn ho v tol hz (fun w n => esl_vec_FExp w n) exp (fun w => by rw [exp_FD]; exact gen_DExp w)
+        (fun w n t => esl_vec_FValidate w n t) (fun w => gen_FValidate hn ho w tol)
+    · unfold esl_vec_FLog2Validate log2Validate
+      simp only [bind, pure, h1, decide_false, Bool.false_eq_true, if_false, h2, copy_FD']
+      exact logValidate_core hn ho v tol hz (fun w n => esl_vec_FExp2 w n) exp2 (fun w => by rw [exp2_FD]; exact gen_DExp2 w)
+        (fun w n t => esl_vec_FValidate w n t) (fun w => gen_FValidate hn ho w tol)
+end logvalidate
+
+/-! ## the conversion routines `esl_vec_D2F / F2D / I2F / I2D`: `dst[i] = src[i]` with C's implicit conversion, cell by cell -/
+/-- a loop `dst[i] = f(src[i])` over a source of another cell type is `map f` -/
+theorem loop_convert {α β : Type} (src : Array β) (dst : Array α) (hd : dst.size = src.size) (f : β → α) (body : Int → Array α → Option (Array α))
+    (hb : ∀ (j : Nat) (a : Array α), j < src.size → body (0 + (j : Int)) a = (rd src j).bind fun x => wr a j (f x)) :
+    ∃ r, loop 0 (src.size : Int) dst body = some r ∧ r.toList = src.toList.map f := by
+  by_cases h0 : src.size = 0
+  · have e : src = #[] := Array.eq_empty_of_size_eq_zero h0
+    have e' : dst = #[] := Array.eq_empty_of_size_eq_zero (by omega)
+    subst e; subst e'; exact ⟨#[], rfl, rfl⟩
+  · have d : α := dst[0]'(by omega)
+    refine (fun ⟨r, hr, hs, hP⟩ => ⟨r, hr, list_of_pointwise src r f (by omega) (fun k hk => by rw [hP k, if_pos (by omega), dif_pos hk])⟩)
+      (loop_pointwise dst src.size (by omega) body (fun k => if h : k < src.size then f src[k] else d) ?_)
+    intro j a hj hsz haj
+    have e1 : src[j]? = some src[j] := by simp [hj]
+    rw [hb j a hj, rd_nat, e1]; simp only [Option.bind_some, dif_pos hj]
+
+theorem gen_D2F {α ω : Type} [CElem α] [VMix α ω] [VNum ω] (src : Array ω) (dst : Array α) (hd : dst.size = src.size) :
+    ∃ r, esl_vec_D2F src src.size dst = some r ∧ r.toList = src.toList.map VMix.narrow := by
+  unfold esl_vec_D2F; simp only [bind, pure]
+  exact loop_convert src dst hd VMix.narrow _ (fun j a hj => by rw [zero_add_cast])
+theorem gen_F2D {α ω : Type} [CElem α] [VMix α ω] [VNum ω] (src : Array α) (dst : Array ω) (hd : dst.size = src.size) :
+    ∃ r, esl_vec_F2D src src.size dst = some r ∧ r.toList = src.toList.map VMix.widen := by
+  unfold esl_vec_F2D; simp only [bind, pure]
+  exact loop_convert src dst hd VMix.widen _ (fun j a hj => by rw [zero_add_cast])
+theorem gen_I2F {α ι : Type} [CElem α] [VInt α ι] (src : Array ι) (dst : Array α) (hd : dst.size = src.size) :
+    (∃ r, esl_vec_I2F src src.size dst = some r ∧ r.toList = src.toList.map VInt.ofInt) ∧
+    (∃ r, esl_vec_I2D src src.size dst = some r ∧ r.toList = src.toList.map VInt.ofInt) := by
+  constructor
+  · unfold esl_vec_I2F; simp only [bind, pure]
+    exact loop_convert src dst hd VInt.ofInt _ (fun j a hj => by rw [zero_add_cast])
+  · unfold esl_vec_I2D; simp only [bind, pure]
+    exact loop_convert src dst hd VInt.ofInt _ (fun j a hj => by rw [zero_add_cast])
+
 end EaselModel.Vec
